@@ -114,10 +114,11 @@ def check(run):
             if isinstance(e, ir.Store) and e.field == posf:
                 p1 = ir.assume(e.value, facts)
         modw = ("op", "%", P0, K)
-        lt = any(g in (("cmp", "<", P0, K), ("cmp", ">", K, P0), ("not", ("cmp", ">=", P0, K)),
-                       ("not", ("cmp", "<=", K, P0))) for g in p.guards)
-        ge = any(g in (("cmp", ">=", P0, K), ("cmp", "<=", K, P0), ("not", ("cmp", "<", P0, K)),
-                       ("not", ("cmp", ">", K, P0)), ("cmp", "==", P0, K), ("cmp", "==", K, P0)) for g in p.guards)
+        from .boolalg import literal
+        below = literal(("cmp", "<", P0, K))
+        lits = [literal(g) for g in p.guards]
+        lt = below in lits
+        ge = (below[0], not below[1]) in lits or literal(("cmp", "==", P0, K)) in lits
         if w == P0 and lt:
             slot = "pos (pos < k)"
             adv = _same(p1, ("op", "+", w, ("const", 1)))
